@@ -34,14 +34,48 @@ class StubAbort(BaseException):
         self.kind = kind
 
 
+class StubStop(StopIteration):
+    """a failure whose class the iteration protocol gives a meaning to (a loss calling next() on an exhausted iterator)"""
+
+    def __init__(self, kind):
+        super().__init__(kind)
+        self.kind = kind
+
+
+class StubOSError(OSError):
+    def __init__(self, kind):
+        super().__init__(kind)
+        self.kind = kind
+
+
+class StubArithmetic(ZeroDivisionError):
+    def __init__(self, kind):
+        super().__init__(kind)
+        self.kind = kind
+
+
+class StubGeneratorExit(GeneratorExit):
+    def __init__(self, kind):
+        super().__init__(kind)
+        self.kind = kind
+
+
+FAULT_CLASSES = {}      # filled below: name -> class
+
+
 def _fault(kind):
-    return StubAbort(kind) if STATE.get("fault_base") else StubFault(kind)
+    name = STATE.get("fault_class") or ("base" if STATE.get("fault_base") else "exception")
+    return FAULT_CLASSES[name](kind)
 
 
 class StubFault(Exception):
     def __init__(self, kind):
         super().__init__(kind)
         self.kind = kind
+
+
+FAULT_CLASSES.update({"exception": StubFault, "base": StubAbort, "stop_iteration": StubStop, "os_error": StubOSError, "arithmetic": StubArithmetic,
+                      "generator_exit": StubGeneratorExit})
 
 
 def stub_model(theta, N, seed):  # noqa: N803
@@ -100,7 +134,15 @@ def _mk_stub(name):
 
     def sample_batch(self, batch_size, search_space, existing_points, existing_losses):
         rows = self.script[self._vp_calls] if self._vp_calls < len(self.script) else []
-        return np.array(rows, dtype=float).reshape(-1, STATE["dims"])
+        rows = np.array(rows, dtype=float).reshape(-1, STATE["dims"])
+        if STATE.get("keep_buffers"):
+            # a sampler that owns one array and rewrites it in place at every call (walkers moved with +=): what it returned earlier changes later
+            buf = self.__dict__.get("_vp_buf")
+            if buf is not None and buf.shape == rows.shape:
+                buf[...] = rows
+                return buf
+            self.__dict__["_vp_buf"] = rows
+        return rows
 
     def __init__(self, batch_size, script, random_state=None):
         BaseSampler.__init__(self, batch_size, random_state=random_state, max_deduplication_passes=0)
@@ -185,6 +227,9 @@ class Scn:
     agent_opts: tuple = (-1.0, 0.1, 0.0)
     bounds: tuple = ((0.0,), (100.0,))
     precision: tuple = (0.5,)
+    slow_policy_calls: tuple = ()                   # indices of the scripted agent's policy() calls that take 1.4 s
+    fault_class: str | None = None                  # which exception class the injected failures have (see FAULT_CLASSES); None: fault_base decides
+    keep_buffers: bool = False                      # stub samplers return one array of their own and rewrite it in place at every call
     fault_base: bool = False                        # injected failures are BaseException subclasses that are not Exceptions
     use_folder: str | None = None                   # run in this existing folder instead of a fresh one (a second run in a used folder)
 
@@ -203,6 +248,9 @@ class ScriptedAgent:
 
     def policy(self, state):
         a = self.actions[self.k] if self.k < len(self.actions) else 0
+        if self.k in getattr(self, "slow_calls", ()):
+            import time
+            time.sleep(self.slow_for)      # a slow decision (a neural or remote policy): the scheduler must wait for it
         self.k += 1
         self.chosen.append(int(a))
         return np.int64(a)
@@ -325,7 +373,7 @@ def run_real(scn: Scn, model=None):
 
     STATE.update(model_calls=0, loss_calls=0, sampler_calls=0, faults=set(map(tuple, scn.faults)), dims=scn.dims,
                  loss_table={tuple(f2h(x) for x in k): v for k, v in scn.loss_table.items()}, loss_default=scn.loss_default,
-                 loss_fn=scn.loss_fn, loss_seen={}, real_args=set(), fault_base=bool(getattr(scn, "fault_base", False)))
+                 loss_fn=scn.loss_fn, loss_seen={}, real_args=set(), fault_base=bool(getattr(scn, "fault_base", False)), keep_buffers=bool(getattr(scn, "keep_buffers", False)), fault_class=getattr(scn, "fault_class", None))
     next_obj = [0]
     folder = (scn.use_folder or tempfile.mkdtemp(prefix="vpcal")) if (scn.folder or any(o[0] in ("K", "R") for o in scn.ops)) else None
     lines, info = [], {"returns": [], "exc": [], "lineups": []}
@@ -372,6 +420,7 @@ def run_real(scn: Scn, model=None):
                     agent.policy = _rec_policy
                 else:
                     agent = ScriptedAgent(scn.actions)
+                    agent.slow_calls, agent.slow_for = tuple(getattr(scn, "slow_policy_calls", ())), 1.4
                 env = MABCalibrationEnv(len(samplers))
                 kw["scheduler"] = RLScheduler(samplers, agent, env)
                 for s in kw["scheduler"].samplers:
@@ -396,10 +445,19 @@ def run_real(scn: Scn, model=None):
                         lines.append("hang:calibrate_did_not_return_within_the_watchdog n=? b=?")
                         info["exc"].append("hang")
                         break
-                    except (StubFault, StubAbort) as e:
+                    except tuple(FAULT_CLASSES.values()) as e:
                         lines.append(f"raise:{e.kind} " + dump(cal, scn))
                         info["exc"].append(e.kind)
                     except Exception as e:  # noqa: BLE001  (an exception of the code under test, reported as an outcome)
+                        # the injected failure wrapped by the language itself (PEP 479: a StopIteration crossing a generator frame, here joblib's
+                        # task generator, becomes RuntimeError with the original as __cause__) still counts as that failure propagating
+                        inner, hops = e, 0
+                        while inner is not None and not isinstance(inner, tuple(FAULT_CLASSES.values())) and hops < 6:
+                            inner, hops = (inner.__cause__ or inner.__context__), hops + 1
+                        if inner is not None and isinstance(inner, tuple(FAULT_CLASSES.values())) and isinstance(e, RuntimeError) and "StopIteration" in str(e):
+                            lines.append(f"raise:{inner.kind} " + dump(cal, scn))
+                            info["exc"].append(inner.kind)
+                            continue
                         try:
                             d = dump(cal, scn)
                         except Exception as e2:  # noqa: BLE001
@@ -559,11 +617,11 @@ def gen_loss_table(rng, lineup, special=()):
 
 
 def gen_scn(rng, *, sched="rr", restore=False, faults=False, conv=False, set_ops=False, max_batches=8, njobs=1) -> Scn:
-    dims = rng.choice([1, 1, 2, 3])
+    dims = rng.choice([1, 1, 2, 3, 1, 2, 3, 11])          # sometimes more than ten parameters
     bounds = (tuple(0.0 for _ in range(dims)), tuple(100.0 for _ in range(dims)))
     n_s = rng.randint(1, 6)
     lineup = gen_stub_lineup(rng, n_s, dims, bounds)
-    scn = Scn(ensemble=rng.randint(1, 4), simlen=rng.choice([dims + 2, dims + 3, 9]), dims=dims, seed=rng.randrange(10 ** 6),
+    scn = Scn(ensemble=rng.randint(1, 4), simlen=rng.choice([dims + 2, dims + 3, max(9, dims + 2)]), dims=dims, seed=rng.randrange(10 ** 6),
               verbose=rng.random() < 0.3, njobs=njobs, folder=rng.random() < 0.4 or restore, lineup=lineup, sched=sched,
               bounds=bounds, precision=tuple(0.5 for _ in range(dims)))
     special = ()
